@@ -1,8 +1,9 @@
 (* C08/Properties.v — RADIUS messages take effect only when authenticated with the shared secret.
    Every theorem quantifies over the hash function [md5raw] (MD5 is an argument, not an axiom), over all
    datagrams, configurations and histories.  Flag records: [repaired] = every repair in place; [head] = what
-   /repo HEAD implements (the four committed C08 fixes; the Event-Timestamp requirement of
-   fixes/C08_require_event_timestamp.patch not yet).  Theorems that do not depend on that requirement are
+   /repo HEAD implements (the four committed C08 fixes; NOT the Event-Timestamp requirement of
+   fixes/C08_require_event_timestamp.patch and NOT the duplicate detection of
+   fixes/C08_coa_duplicate_detection.patch — both recorded as known findings).  Theorems that do not depend on that requirement are
    stated for every flag record with the relevant repair on, so they cover both.  Each [_refuted] lemma shows
    that the statement fails when the named repair is off. *)
 From OV Require Import Common.Base C08.Model C08.Proofs.
@@ -235,11 +236,9 @@ Proof.
 Qed.
 Print Assumptions C08_coa_missing_timestamp_refuted.
 
-(* Replays.  The property's criterion is the window: a byte-identical copy of a request that arrives while its
-   Event-Timestamp is still inside the window satisfies every clause of the statement and is executed again
-   (RFC 5176 has no other replay defence; see notes/C08.md "Audit response").  What is guaranteed is that the
-   window bounds the replay: if one datagram takes effect at two instants they are at most 2*window apart,
-   i.e. a captured request is dead window seconds after its timestamp. *)
+(* Replays, part 1: the window bounds them.  If one datagram takes effect at two instants they are at most
+   2*window apart (timestamps up to window seconds AHEAD of the clock are admitted too, hence 2*window, not
+   window).  Part 2 — that a copy inside the window is not executed again — is C08_coa_single_execution below. *)
 Theorem C08_coa_replay_span_bounded :
   forall md5raw cfg src raw now1 bus1 e1 now2 bus2 e2,
     (0 < window cfg)%Z ->
@@ -248,6 +247,27 @@ Theorem C08_coa_replay_span_bounded :
     (Z.abs (now1 - now2) <= 2 * window cfg)%Z.
 Proof. exact coa_replay_span_bounded. Qed.
 Print Assumptions C08_coa_replay_span_bounded.
+
+(* The same bound on /repo HEAD: it holds for every request that carries a usable Event-Timestamp ... *)
+Theorem C08_coa_replay_span_bounded_head :
+  forall md5raw cfg src raw p now1 bus1 e1 now2 bus2 e2,
+    (0 < window cfg)%Z ->
+    parse raw = Some p -> event_ts (p_attrs p) <> 0 ->
+    effect (coa_step md5raw head cfg now1 src bus1 raw) = Some e1 ->
+    effect (coa_step md5raw head cfg now2 src bus2 raw) = Some e2 ->
+    (Z.abs (now1 - now2) <= 2 * window cfg)%Z.
+Proof. exact coa_replay_span_bounded_head. Qed.
+Print Assumptions C08_coa_replay_span_bounded_head.
+
+(* ... and this is EXACTLY what HEAD admits without one: the whole decision (reply, statistics, event) of a
+   request without a usable Event-Timestamp does not depend on the clock — no bound at all (known finding
+   coa-without-event-timestamp-bypasses-window; witness C08_coa_missing_timestamp_refuted). *)
+Theorem C08_head_untimestamped_request_ignores_clock :
+  forall md5raw cfg now1 now2 src bus raw p,
+    parse raw = Some p -> event_ts (p_attrs p) = 0 ->
+    coa_step md5raw head cfg now1 src bus raw = coa_step md5raw head cfg now2 src bus raw.
+Proof. exact head_untimestamped_clock_independent. Qed.
+Print Assumptions C08_head_untimestamped_request_ignores_clock.
 
 Example C08_coa_replay_span_nonvacuous :
   effect (coa_step toy repaired ex_cfg 700 2130706434 0 ex_dm) = Some (EvTerminate (1, [115; 49])) /\
@@ -271,7 +291,7 @@ Print Assumptions C08_coa_unauthenticated_request_refuted.
 (* before commit 331235d (f_dmwin off): the replay window is not applied to Disconnect-Request *)
 Lemma C08_disconnect_window_refuted :
   exists md5raw cfg now src bus raw p t,
-    effect (coa_step md5raw {| f_reply := true; f_coaauth := true; f_dmwin := false; f_white := true; f_tsreq := true |}
+    effect (coa_step md5raw {| f_reply := true; f_coaauth := true; f_dmwin := false; f_white := true; f_tsreq := true; f_dedup := true |}
                      cfg now src bus raw) = Some (EvTerminate t) /\
     parse raw = Some p /\ window_ok (window cfg) now (p_attrs p) = false.
 Proof.
@@ -281,6 +301,56 @@ Proof.
 Qed.
 Print Assumptions C08_disconnect_window_refuted.
 
+(* Single execution (duplicate detection, fixes/C08_coa_duplicate_detection.patch; [f_dedup]).  Over any history of
+   datagrams reaching the listener: two datagrams with the same key — same client secret, same code, identifier,
+   length and Request Authenticator, i.e. byte-identical requests unless MD5 collides — do not both take
+   effect; the later one is answered with the cached reply.  Holds for [repaired] (and any flags with f_dedup). *)
+Theorem C08_coa_single_execution :
+  forall md5raw fl, f_dedup fl = true ->
+  forall cfg ins seen j1 j2 i1 i2 o1 o2 key,
+    (j1 < j2)%nat ->
+    nth_error ins j1 = Some i1 -> nth_error ins j2 = Some i2 ->
+    key_of cfg i1 = Some key -> key_of cfg i2 = Some key ->
+    nth_error (coa_run md5raw fl cfg seen ins) j1 = Some o1 ->
+    nth_error (coa_run md5raw fl cfg seen ins) j2 = Some o2 ->
+    effect o1 <> None -> effect o2 = None.
+Proof. exact single_execution. Qed.
+Print Assumptions C08_coa_single_execution.
+
+(* Disconnect-Request by User-Name "al", CoA-Requests setting Session-Timeout 3600 and 60; all with Event-Timestamp 1000 *)
+Definition ex_dm_user : bytes := sign_req [107] [40; 5; 0; 30] [1; 4; 97; 108; 55; 6; 0; 0; 3; 232].
+Definition ex_coa_a : bytes := sign_req [107] [43; 6; 0; 36] [1; 4; 97; 108; 27; 6; 0; 0; 14; 16; 55; 6; 0; 0; 3; 232].
+Definition ex_coa_b : bytes := sign_req [107] [43; 7; 0; 36] [1; 4; 97; 108; 27; 6; 0; 0; 0; 60; 55; 6; 0; 0; 3; 232].
+Definition inp (now : Z) (raw : bytes) : coa_input := (now, 2130706434, 0, raw).
+
+Example C08_coa_single_execution_nonvacuous :
+  map effect (coa_run toy repaired ex_cfg [] [inp 1100 ex_dm_user; inp 1200 ex_dm_user])
+  = [Some (EvTerminate (3, [97; 108])); None] /\
+  map effect (coa_run toy repaired ex_cfg [] [inp 1100 ex_coa_a; inp 1150 ex_coa_b; inp 1200 ex_coa_a])
+  = [Some (EvMutation (3, [97; 108]) [(k_session_timeout, [51; 54; 48; 48])]);
+     Some (EvMutation (3, [97; 108]) [(k_session_timeout, [54; 48])]); None].
+Proof. vm_compute. split; reflexivity. Qed.
+Print Assumptions C08_coa_single_execution_nonvacuous.
+
+(* /repo HEAD has no duplicate detection (known finding coa-duplicate-request-reexecuted).  Two consequences that
+   are NOT idempotent: (a) a Disconnect-Request that names the subscriber by User-Name (or Framed-IP-Address),
+   replayed inside the window, publishes a second terminate event for that name — whatever session carries
+   the name by then, e.g. the subscriber's NEW session, is torn down; (b) an older CoA replayed after a newer
+   one publishes the older delta again and thereby reverts the newer change. *)
+Lemma C08_head_replayed_disconnect_reexecuted :
+  map effect (coa_run toy head ex_cfg [] [inp 1100 ex_dm_user; inp 1200 ex_dm_user])
+  = [Some (EvTerminate (3, [97; 108])); Some (EvTerminate (3, [97; 108]))].
+Proof. vm_compute. reflexivity. Qed.
+Print Assumptions C08_head_replayed_disconnect_reexecuted.
+
+Lemma C08_head_replayed_older_coa_reverts_newer :
+  map effect (coa_run toy head ex_cfg [] [inp 1100 ex_coa_a; inp 1150 ex_coa_b; inp 1200 ex_coa_a])
+  = [Some (EvMutation (3, [97; 108]) [(k_session_timeout, [51; 54; 48; 48])]);
+     Some (EvMutation (3, [97; 108]) [(k_session_timeout, [54; 48])]);
+     Some (EvMutation (3, [97; 108]) [(k_session_timeout, [51; 54; 48; 48])])].
+Proof. vm_compute. reflexivity. Qed.
+Print Assumptions C08_head_replayed_older_coa_reverts_newer.
+
 (* ---------------------------------------------------------------------------------------------
    3. A CoA changes only documented mutable attributes.  The attribute delta of a published mutation is
    non-empty, every key is in the documented mutable set (internal/subscriber/mutation.go
@@ -288,8 +358,8 @@ Print Assumptions C08_disconnect_window_refuted.
    resolved from the identification attributes of the packet alone.  A Disconnect takes effect only when the
    packet carries nothing but identification attributes. *)
 Theorem C08_coa_mutable_only :
-  forall md5raw tsr cfg now src bus raw e,   (* flt true = repaired, flt false = head *)
-    effect (coa_step md5raw (flt tsr) cfg now src bus raw) = Some e ->
+  forall md5raw tsr dd cfg now src bus raw e,   (* flt true true = repaired, flt false false = head *)
+    effect (coa_step md5raw (flt tsr dd) cfg now src bus raw) = Some e ->
     exists p, parse raw = Some p /\
       match e with
       | EvMutation t delta =>
@@ -311,7 +381,7 @@ Definition ex_l2gw_body : bytes := [44; 4; 115; 49; 26; 9; 0; 0; 126; 217; 1; 3;
 Definition ex_l2gw : bytes := sign_req [107] [43; 9; 0; 39] ex_l2gw_body.
 Lemma C08_coa_mutable_only_refuted :
   exists md5raw cfg now src bus raw t delta,
-    effect (coa_step md5raw {| f_reply := true; f_coaauth := true; f_dmwin := true; f_white := false; f_tsreq := true |}
+    effect (coa_step md5raw {| f_reply := true; f_coaauth := true; f_dmwin := true; f_white := false; f_tsreq := true; f_dedup := true |}
                      cfg now src bus raw) = Some (EvMutation t delta) /\
     all_allowed delta = false.
 Proof.
